@@ -81,6 +81,13 @@ def gen_known(repo):
         if len(loops) != 1:
             raise py2v.Untranslatable("vlr_factory: expected one for loop")
         loop = loops[0]
+        # what is compared is the record's own user id and the classes in definition order, nothing derived from them
+        pre = [ast.unparse(n).replace(" ", "") for n in fn.body[:fn.body.index(loop)]
+               if not (isinstance(n, ast.Expr) and isinstance(n.value, ast.Constant) and isinstance(n.value.value, str))]
+        if pre != ["user_id=vlr.user_id", "known_vlrs=BaseKnownVLR.__subclasses__()"]:
+            raise py2v.Untranslatable(f"vlr_factory: unexpected statements before the loop: {pre}")
+        if ast.unparse(loop.target) != "known_vlr" or ast.unparse(loop.iter) != "known_vlrs" or loop.orelse:
+            raise py2v.Untranslatable("vlr_factory: unexpected loop header")
         if len(loop.body) != 1 or not isinstance(loop.body[0], ast.If):
             raise py2v.Untranslatable("vlr_factory: loop body is not a single if")
         test = ast.unparse(loop.body[0].test).replace(" ", "")
@@ -106,6 +113,61 @@ def gen_known(repo):
                 "   try/except Exception -> the input record; no match -> the input record. *)\n"
                 "Definition factory_first_match_with_fallback : bool := true.\n")
     o.add("vlr_factory", factory_shape)
+
+    # ---- the file around the lists: what the writer does to the header it is given ----
+    def cs(x):
+        return '"' + x.replace('"', '""') + '"%string'
+
+    def simple_statements(fn):
+        """every simple statement of the function, in source order (bodies of if/try/with/for included)"""
+        out = []
+
+        def walk(body):
+            for n in body:
+                if isinstance(n, (ast.Assign, ast.AugAssign, ast.AnnAssign, ast.Expr, ast.Delete, ast.Return, ast.Raise)):
+                    if isinstance(n, ast.Expr) and isinstance(n.value, ast.Constant) and isinstance(n.value.value, str):
+                        continue
+                    out.append(n)
+                for f in ("body", "orelse", "finalbody"):
+                    if hasattr(n, f) and not isinstance(n, (ast.FunctionDef, ast.ClassDef, ast.Lambda)):
+                        walk(getattr(n, f))
+                for h in getattr(n, "handlers", []):
+                    walk(h.body)
+        walk(fn.body)
+        return out
+
+    def partial_reset():
+        mod = py2v.parse(repo, "laspy/header.py")
+        fn = py2v.find_func(py2v.find_class(mod, "LasHeader"), "partial_reset")
+        names = []
+        for n in simple_statements(fn):
+            if (isinstance(n, ast.Assign) and len(n.targets) == 1 and isinstance(n.targets[0], ast.Attribute)
+                    and ast.unparse(n.targets[0].value) == "self" and isinstance(n.value, ast.Constant)
+                    and type(n.value.value) is int and n.value.value == 0):
+                names.append(n.targets[0].attr)
+        return ("(* LasHeader.partial_reset: the attributes it sets to the literal 0 *)\n"
+                "Definition partial_reset_zeroes : list string := [" + "; ".join(cs(x) for x in names) + "].\n")
+    o.add("partial_reset", partial_reset)
+
+    def writer_ops():
+        mod = py2v.parse(repo, "laspy/laswriter.py")
+        cls = py2v.find_class(mod, "LasWriter")
+        init = py2v.find_func(cls, "__init__")
+        hdr = [ast.unparse(n) for n in simple_statements(init) if "self.header" in ast.unparse(n)]
+        we = py2v.find_func(cls, "write_evlrs")
+        ifs = [n for n in we.body if isinstance(n, ast.If)]
+        if len(ifs) != 2 or not isinstance(ifs[0].body[-1], ast.Raise) or ifs[0].orelse or ifs[1].orelse:
+            raise py2v.Untranslatable("LasWriter.write_evlrs: expected a version guard that raises and one guarded block")
+        if [n for n in we.body if not isinstance(n, ast.If)
+                and not (isinstance(n, ast.Expr) and isinstance(n.value, ast.Constant))]:
+            raise py2v.Untranslatable("LasWriter.write_evlrs: statements outside the two guards")
+        return ("(* LasWriter.__init__: every simple statement that mentions self.header, in source order *)\n"
+                "Definition writer_header_ops : list string := [\n  " + ";\n  ".join(cs(x) for x in hdr) + "].\n\n"
+                "(* LasWriter.write_evlrs: the version guard (raises), the guard of the block that writes, its statements *)\n"
+                "Definition write_evlrs_version_guard : string := " + cs(ast.unparse(ifs[0].test)) + ".\n"
+                "Definition write_evlrs_guard : string := " + cs(ast.unparse(ifs[1].test)) + ".\n"
+                "Definition write_evlrs_ops : list string := [\n  " + ";\n  ".join(cs(ast.unparse(n)) for n in simple_statements(ifs[1])) + "].\n")
+    o.add("writer", writer_ops)
     return o
 
 
